@@ -347,7 +347,7 @@ def analyse_tu(eng, cfg):
         if m and "::'lambda'" in p:
             # judged only where the element's operator< is an opaque call (TR's is an inline
             # function and int's is built in: their comparisons are not visible as calls)
-            if cfg.elem in ('NM', 'TM', 'MO', 'MOT', 'CO'):
+            if cfg.elem in ('NM', 'NA', 'TM', 'MO', 'MOT', 'CO'):
                 nlambda += 1
                 eng.walk(f, [lam])
             continue
